@@ -568,6 +568,19 @@ func (g *Gen) cohortRich() d128.Decimal {
 
 func genC19(g *Gen) {
 	g.setMode(0)
+	g.onesGrid(0.12)
+	// the same sum with the vanishing operand in three encodings, both operand orders
+	g.vanishGrid(0.25, func(x, y d128.Decimal) {
+		m := g.r.Intn(6)
+		op := g.addSubOp()
+		for _, yv := range []d128.Decimal{y, g.variant(y), g.variant(y)} {
+			if g.r.Intn(2) == 0 {
+				g.bin(op, x, yv, m)
+			} else {
+				g.bin(op, yv, x, m)
+			}
+		}
+	})
 	for !g.w.full() {
 		x, y := g.cohortRich(), g.cohortRich()
 		if g.r.Intn(3) == 0 {
